@@ -209,14 +209,21 @@ CHECKS["C01"] = dict(
          "name, the entry is what a definition of the property as it now is creates (name, kind, group, label, state, enabled elements with "
          "labels and wire values), absent when not exposed, and no other entries (what_in_sync_means). In the composed system model "
          "(System/Deliver.v, Client/Norm.v): what a driver publishes in one operation reaches the connected network client exactly "
-         "(what_a_driver_publishes_is_delivered), processing commutes with the wire's normalisation, and through every operation that publishes "
-         "no BLOB update the client's mirror stays the normalisation of a mirror in sync with the device (the_connected_client_stays_in_sync). "
+         "(what_a_driver_publishes_is_delivered), processing commutes with the wire's normalisation, and through every operation the client's mirror "
+         "stays the normalisation of a mirror in sync with the device (the_connected_client_stays_in_sync; for operations that publish BLOB "
+         "updates as well: the_connected_client_stays_in_sync_on_both_connections - System/Reorder.v proves that taking an operation's ordinary "
+         "messages first and its BLOB updates afterwards gives the same view as the order of publication, because a message about one property "
+         "acts on that entry alone and as a function of that entry alone, order_across_the_two_connections_does_not_matter; condition: within one "
+         "operation no ordinary message about a property follows a BLOB update about it, decidable and true of every operation of the library). "
          "The network client's handshake is proved in the system model as well (the_handshake_connects_and_syncs: policies control Never / BLOB "
-         "connection Only, nothing in flight, mirror in sync) and so is every later history of such operations (connected_client_history). "
-         "PARTIAL: operations publishing BLOB updates (two connections, order not determined) and deployments with several drivers or clients "
+         "connection Only, nothing in flight, mirror in sync) and so is every later history of operations "
+         "(connected_client_history_on_both_connections). "
+         "PARTIAL: the system model settles after each operation; operations overlapping in time with the delivery of earlier ones, and deployments "
+         "with several drivers or clients, "
          "are composed in the system model and VALIDATED by running the real stack (every device state and every client view after every operation, "
-         "generated definitions incl. inheritance) plus a model-free oracle, not proved. REFUTED for BLOB payloads (known finding K2).",
-    note=NOTE_BASE + "Partial: operations that publish BLOB updates, and several drivers/clients at once, are validated by correspondence, not proved end to end. Known findings K2 (BLOB payload after a definition) and K1-C01 (messages above the 2048-character threshold).",
+         "generated definitions incl. inheritance; schedules family: connect while the device keeps changing) plus a model-free oracle, not proved. "
+         "REFUTED for BLOB payloads (known finding K2).",
+    note=NOTE_BASE + "Partial: operations overlapping with the delivery of earlier ones, and several drivers/clients at once, are validated by correspondence, not proved end to end. Known findings K2 (BLOB payload after a definition) and K1-C01 (messages above the 2048-character threshold).",
     technique="Coq proof (handshake, every operation and every history keep the mirror in sync, for every handler-free device definition) + system-level correspondence of the composed model with the real driver/router/transport/client stack",
     design="4/C01")
 CHECKS["C08"] = dict(
